@@ -26,7 +26,7 @@ GUARDS = [
     # (function suffix, Error variant, regex on the guarding condition, minimum sites)
     ('BDecoder::values_vector', 'DecodeUnexpectedChar', r'with_end|Delimiter', 1),
     ('BDecoder::values_vector', 'DecodeIncorrectChar', r'discr\(', 1),
-    ('BDecoder::parse_byte_str', 'DecodeIncorrectChar', r'Iterator::all\(', 1),
+    ('BDecoder::parse_byte_str', 'DecodeIncorrectChar', r'Iterator::(all|any)\(', 1),
     ('BDecoder::parse_byte_str', 'DecodeUnableConvert', r'from_utf8|parse\(', 2),
     ('BDecoder::parse_byte_str', 'DecodeNotEnoughChars', r'Ne\(.*len\(|Iterator::nth\(', 2),
     ('BDecoder::parse_int', 'DecodeMissingTerminalChars', r'Iterator::nth\(', 1),
@@ -38,9 +38,36 @@ GUARDS = [
 ]
 
 
+ROLES = ('values_vector', 'from_array', 'parse_byte_str', 'parse_int', 'parse_dict', 'keys_from_list', 'extract_int')
+
+
 def fn_by_suffix(F, suf):
-    """decoder function in the role named by suf ('BDecoder::parse_int', ...): resolved by signature, not by name"""
-    return V.codec_fn(F, suf.split('::')[-1])
+    """decoder function in the role named by suf ('BDecoder::parse_int', ...): resolved by signature, not by name, with the
+    private helpers that only it calls spliced in (a conversion moved into a helper keeps its rejections in the count)"""
+    role = suf.split('::')[-1]
+    cache = F.__dict__.setdefault('_c16_fns', {})
+    if role in cache:
+        return cache[role]
+    f = V.codec_fn(F, role)
+    role_paths = set()
+    for r in ROLES:
+        try:
+            role_paths.add(V.codec_fn(F, r).path)
+        except AnchorMissing:
+            pass
+
+    def exclusive(g):
+        cs = C.callers(F, g.path)
+        return g.path not in role_paths and g.self_ty == f.self_ty and bool(cs) and all(F.owner_fn(c).path == f.path for c, cb in cs)
+    cache[role] = mirq.inline_fn(F, f, exclusive, depth=2)
+    cache[role + '/parts'] = [f] + [g for g in F.user_fns() if g.kind in ('Fn', 'AssocFn') and exclusive(g)]
+    return cache[role]
+
+
+def fn_parts(F, suf):
+    """the role function as written plus the helpers only it calls, each on its own (for rules about one function's exits)"""
+    fn_by_suffix(F, suf)
+    return F._c16_fns[suf.split('::')[-1] + '/parts']
 
 
 @TABLE.rule('1', 'K4', 'panic-site audit of BDecoder::from_array (whole call graph)', floor=2)
@@ -123,8 +150,7 @@ def r2(cx, rec):
     rec.need(('0', True) in lits and ('-0', True) in lits, 'leading-zero-forms', pi, None,
              'parse_int does not test the whole integer text for both the "0" and the "-0" prefix before accepting it: %s' % sorted(lits))
     # Ok exit of parse_int / parse_byte_str / parse_dict only past every guard of that function
-    for suf in ('BDecoder::parse_int', 'BDecoder::parse_byte_str', 'BDecoder::parse_dict'):
-        f = fn_by_suffix(F, suf)
+    for suf, f in [(s_, p_) for s_ in ('BDecoder::parse_int', 'BDecoder::parse_byte_str', 'BDecoder::parse_dict') for p_ in fn_parts(F, s_)]:
         oks = [bi for bi, si, e in mirq.agg_sites(f, r'^std::result::Result$', 'Ok')]
         errs = [bi for bi, si, e in mirq.agg_sites(f, r'^error::Error$')]
         others = set(f.switches())
